@@ -196,6 +196,13 @@ _add("C16", "Configurations with only a legacy serializer or only a legacy deser
 _add("C18", "A cas token handed out by a fallback cache through gets/gets_many is then used in cas() (first cache only, twice); writes while the primary raises (8 exception kinds) must not turn up at a fallback cache; the order is reconfigured between session calls; two threads share one fresh FallbackClient under the deterministic scheduler (every schedule within the preemption bound, line granularity inside fallback.py).")
 _add("C19", "Per scenario options: DEBUG logging for the library with a handler that formats every record, a TLS context (every connect / send / receive - the discovery connection included - must go through the wrapper), a server added by hand through add_server() before a reconfiguration (retired like any node that is not advertised); endpoints answering with an empty or garbled payload must leave no open connection and a usable client.")
 _add("C20", "The mapping protocol (client[key], client[key] = v, del client[key]) is among the operations.")
+_add("C15", "Reference cycles and shared substructure (judged structurally), pickles above 128 KiB and 1 MiB, and a class whose module-level name is re-bound between two round trips.")
+_add("C11", "A membership change in one thread while another looks keys up (the placement after both are done is judged); hashers with different seeds side by side over the same node names; falsy node objects; host names with capitals.")
+_add("C13", "Failure kinds include a server that takes the request and resets the connection when the reply is read; one operation sends 1100 keys of one server in a single get_many. A contact the server answered with an error line ends a run of failed contacts for the rate windows and is skipped in the eviction evidence.")
+_add("C17", "The wrapped method rotates through every command of a client (incr, append, cas, ...), not only get.")
+_add("C18", "noreply=None passed explicitly, 600- and 1100-key reads, close() in the middle of a session.")
+_add("C20", "Clients whose value encoding is latin-1 / cp1252 / utf-16 (keys stay ASCII / UTF-8).")
+_add("C03", "Stat values that end like a terminator line.")
 NOT_YET = "check not built yet in this round (runtime-monitoring design in DESIGN.md §2); will be claimed once its monitor exists"
 
 manifest = {
@@ -214,7 +221,7 @@ manifest = {
     ],
     "checks": [],
     "not_applicable": [],
-    "notes": "Technique family: runtime monitoring. Verdicts are three-valued: exit 0 held on what was observed, exit 1 VIOLATION, exit 2 INCONCLUSIVE (monitor not reached / watchdog).",
+    "notes": "Technique family: runtime monitoring. Ambient configuration: odd-numbered shards of every check run with DEBUG logging for the pymemcache logger (a handler formats every record), shards 2,3 mod 4 with warnings turned into errors; the ambient state is stored with each violation and restored by --replay. Verdicts are three-valued: exit 0 held on what was observed, exit 1 VIOLATION, exit 2 INCONCLUSIVE (monitor not reached / watchdog).",
 }
 for pid in props:
     if pid in CHECKS:
